@@ -153,6 +153,7 @@ type Result struct {
 	Panic    string
 	Scans    int
 	Budget   bool // the scan/action budget was exceeded (treated as non-termination)
+	ErrObj   any  // the raw error value returned by Parse (for Impl.ErrorString)
 }
 
 // Lexer is a generated lexer.
@@ -192,7 +193,7 @@ type Impl struct {
 	TokType      func(id string) int
 	NewParser    func() Parser
 	Tables       func() *Tables
-	ErrorString  func(res Result) string
+	ErrorString  func(errObj any) string // err.Error() of the raw error value
 }
 
 var (
